@@ -166,8 +166,20 @@ ReadList(t, dbl) == LET f == FirstNotIn(t, Blank, 1) IN
                     IF f = 0 THEN NoValue
                     ELSE IF Ch(t, f) = "{" THEN ListFrom(t, f + 1, dbl, <<>>)
                     ELSE LET e == ElemAt(t, f, dbl) IN IF e.ok THEN Val(<<e.v>>) ELSE NoValue
-\* a list of strings is present as soon as anything follows the '=' (kept as its text, not split)
-ReadSList(t) == ReadString(t)
+\* a list of strings (get_vparam_from_string for vector<string>): "{a, b}" is split at ',' and '}', blanks
+\* before an item are skipped; an unterminated last item loses its last character (UnterminatedStringItem:
+\* what the code does); without braces the whole text is the only item.  Every line yields a NEW list.
+RECURSIVE SListFrom(_, _, _)
+SListFrom(t, cp, acc) ==
+  LET c1 == FirstNotIn(t, {"}", ","}, cp)
+      c2 == IF c1 = 0 THEN 0 ELSE FirstNotIn(t, Blank, c1) IN
+  IF c2 = 0 THEN acc
+  ELSE LET e == FirstIn(t, {",", "}"}, c2) IN
+       IF e = 0 THEN Append(acc, SubSeq(t, c2, LastNotIn(t, Blank, Len(t)) - 1))
+       ELSE SListFrom(t, e + 1, Append(acc, SubSeq(t, c2, e - 1)))
+ReadSList(t) == LET f == FirstNotIn(t, Blank, 1) IN
+                IF f = 0 THEN NoValue
+                ELSE IF Ch(t, f) = "{" THEN Val(SListFrom(t, f + 1, <<>>)) ELSE Val(<<From(t, f)>>)
 
 (* ------------------------------ one line --------------------------------- *)
 NoErr == ""
@@ -340,24 +352,24 @@ ProcessP(st, p) ==
 Process(st, text) == ProcessP(st, ParseLine(text))
 
 (* --------------------------- the line reader ----------------------------- *)
-\* The input is a sequence of physical lines, each a record [t |-> text, hasp |-> BOOLEAN, p |-> parse
-\* of t when hasp (memo)], and the flag nl (TRUE: the last line is followed by a newline).
-\* read_line: strip one trailing CR; a line ending in the continuation character '\' is joined with
-\* the next one.  The result is the sequence of LOGICAL lines, each with: eof (the stream's eofbit is
+\* The input is a sequence of physical lines, each a record [t |-> text, core, hasp |-> BOOLEAN, p |-> parse
+\* of the text `core' when hasp (memo)], and the flag nl (TRUE: the last line is followed by a newline).
+\* read_line: one trailing CR is stripped from every PHYSICAL line (DOS line ends) BEFORE the continuation
+\* character is looked for; a line ending in the continuation character '\' is joined with the next one.  The result is the sequence of LOGICAL lines, each with: eof (the stream's eofbit is
 \* set after reading it), phantom (read at the very end of the input, after the last newline),
 \* contAtEof (the input ended inside a continued line: nothing to append).
 StripCR(s) == IF Len(s) > 0 /\ Ch(s, Len(s)) = "\r" THEN SubSeq(s, 1, Len(s) - 1) ELSE s
 EndsBackslash(s) == Len(s) > 0 /\ Ch(s, Len(s)) = "\\"
 Chop(s) == SubSeq(s, 1, Len(s) - 1)
 HasNonBlank(s) == FirstNotIn(s, Blank, 1) # 0
-Plain(t) == [t |-> t, hasp |-> FALSE, p |-> 0]
+Plain(t) == [t |-> t, core |-> t, hasp |-> FALSE, p |-> 0]
 Logical(PL, nl) ==
   LET n == Len(PL)
       step(a, x) ==
         LET this == StripCR(x.t)
             eofAfter == (a.k + 1 = n) /\ ~nl
             joined == a.pend \o this
-            own == a.pend = "" /\ this = x.t /\ x.hasp IN       \* the logical line is this physical line: its memo applies
+            own == a.pend = "" /\ this = x.core /\ x.hasp IN    \* the logical line is the memoised text: its memo applies
         IF EndsBackslash(joined)
         THEN IF eofAfter
              THEN [k |-> a.k + 1, pend |-> "", cont |-> FALSE,
@@ -398,7 +410,11 @@ ParseHeaderP(st0, PL, nl) == FoldLeft(RunStep, RunBase(st0), Logical(PL, nl))
 ParseHeader(st0, L, nl) == ParseHeaderP(st0, [i \in 1..Len(L) |-> Plain(L[i])], nl)
 
 \* join physical lines into the text handed to the parser
-JoinLines(L, nl) == FoldLeft(LAMBDA a, x : a \o x \o "\n", "", SubSeq(L, 1, Len(L) - 1)) \o (IF Len(L) = 0 THEN "" ELSE L[Len(L)] \o (IF nl THEN "\n" ELSE ""))
+\* (crlf: DOS line ends)
+JoinLinesE(L, nl, crlf) ==
+  LET sep == IF crlf THEN "\r\n" ELSE "\n" IN
+  FoldLeft(LAMBDA a, x : a \o x \o sep, "", SubSeq(L, 1, Len(L) - 1)) \o (IF Len(L) = 0 THEN "" ELSE L[Len(L)] \o (IF nl THEN sep ELSE ""))
+JoinLines(L, nl) == JoinLinesE(L, nl, FALSE)
 
 (* ------------- the fixed key map of the replay driver (part a) ----------- *)
 TestKM == KM(<< <<"Start Test", Entry("none", 0, "", "start")>>,
@@ -409,10 +425,14 @@ TestKM == KM(<< <<"Start Test", Entry("none", 0, "", "start")>>,
                 <<"vec key", Entry("int", 1, "vec", "set")>>,
                 <<"vlist key", Entry("ilist", 1, "vlist", "set")>>,
                 <<"enum key", EnumEntry("en", "set", <<"alpha", "Beta Gamma">>)>>,
+                <<"slist key", Entry("slist", 0, "sl", "set")>>,
+                <<"slist2 key", Entry("slist", 0, "sl2", "set")>>,
+                <<"dlist key", Entry("dlist", 0, "dl", "set")>>,
                 <<"ignored key", Entry("none", 0, "", "nothing")>>,
                 <<"End Test", Entry("none", 0, "", "stop")>> >>)
 TestAlias == [k \in {"old int", "old vec"} |-> IF k = "old int" THEN "scalar int" ELSE "vec key"]
-TestVars == [i |-> -7, s |-> "init", flag |-> FALSE, list |-> <<9>>, vec |-> <<0, 0, 0>>, vlist |-> << <<>>, <<>> >>, en |-> 0]
+TestVars == [i |-> -7, s |-> "init", flag |-> FALSE, list |-> <<9>>, vec |-> <<0, 0, 0>>, vlist |-> << <<>>, <<>> >>, en |-> 0,
+             sl |-> <<"x">>, sl2 |-> <<>>, dl |-> <<"0.5">>]
 TestInit == NewState(TestKM, TestAlias, TestVars)
 (* ------------------- the line alphabet of the replay (part a) ------------ *)
 \* Physical lines fed to a KeyParser with the fixed key map TestKM below ("size" of the vectorised
@@ -483,7 +503,14 @@ Alpha == <<
   "enum key :=\t!Beta_\f gamma ",  \* 59  ... mixed
   "Start\tTEST\t:=",               \* 60  start key with TABs
   "end\t\ttest:=",                 \* 61  stop key with TABs
-  "old\tVEC[3] := 27"              \* 62  alias with a TAB
+  "old\tVEC[3] := 27",             \* 62  alias with a TAB
+  \* lists of strings and of doubles: with the full alphabet at every position ALL ORDERED PAIRS of value
+  \* kinds occur on consecutive lines (also the same key twice): a line's value never depends on the line before
+  "slist key := {aa, bb}",         \* 63
+  "slist key := {cc}",             \* 64
+  "slist2 key := {dd,ee}",         \* 65
+  "dlist key := {1.5, 2.25}",      \* 66
+  "dlist key := 3"                 \* 67
 >>
 AlphaIds == 1..Len(Alpha)
 \* lines used at the inner positions of the longest sequences
@@ -492,9 +519,11 @@ TextsOf(ids) == [k \in 1..Len(ids) |-> Alpha[ids[k]]]
 ContIds == {a \in AlphaIds : EndsBackslash(Alpha[a])}
 \* memo: the parse of every alphabet line
 AlphaParsed == [a \in AlphaIds |-> ParseLine(Alpha[a])]
-AlphaLines(ids) == [k \in 1..Len(ids) |-> [t |-> Alpha[ids[k]], hasp |-> TRUE, p |-> AlphaParsed[ids[k]]]]
+\* the physical lines of a replay run: alphabet lines ids, each followed by CR when the text has DOS line ends
+AlphaLines(ids, nl, crlf) == [k \in 1..Len(ids) |-> [t |-> Alpha[ids[k]] \o (IF crlf /\ (k < Len(ids) \/ nl) THEN "\r" ELSE ""),
+                                                      core |-> Alpha[ids[k]], hasp |-> TRUE, p |-> AlphaParsed[ids[k]]]]
 \* the run of the replay driver's parser on the alphabet lines ids
-TestRun(ids, nl) == ParseHeaderP(TestInit, AlphaLines(ids), nl)
+TestRun(ids, nl, crlf) == ParseHeaderP(TestInit, AlphaLines(ids, nl, crlf), nl)
 
 (* ------------------ the Interfile headers (part b of C17) ----------------- *)
 \* Key maps of InterfileImageHeader and InterfilePDFSHeader (InterfileHeader.cxx constructors).
